@@ -22,7 +22,7 @@ UA_RAND = [SEC + ".GenerateRandomNumber"]
 PAYLOAD_KINDS = [33, 34, 35, 36, 37, 38, 39, 40, 41, 42, 43, 44, 45, 47, 48]
 
 
-def job(pkg, entry, params, solver="z3", **kw):
+def job(pkg, entry, params, solver="z3-new", **kw):
     j = {"pkg": pkg, "entry": entry, "params": list(params), "solver": solver, "timeout_ms": 20000, "wall_ms": 240000}
     j.update(kw)
     return j
@@ -127,7 +127,7 @@ def c04_jobs(tier):
     # cipher
     for ki in range(3):
         for n in range(0, (64 if q else 96) + 1):
-            jobs.append(job(ENCR, "HDecryptArbitrary", [ki, n], solver="z3"))
+            jobs.append(job(ENCR, "HDecryptArbitrary", [ki, n], solver="z3-new"))
     # (4) unprotection entry point.  family 1: single payload spanning the datagram, decrypted
     # plaintext chain cut inside decryptMsg; family 0: arbitrary chains, small
     cut_dd = [c + "|" + MOD + ".decryptMsg" for c in ALL_CUTS]
@@ -137,9 +137,9 @@ def c04_jobs(tier):
         for role in (0, 1):
             for hm in (0, 1):
                 for n in range(0, nd + 1):
-                    jobs.append(job(ROOT, "HDecodeDecryptArbitrary", [s, role, 1, hm, n, 1], solver="z3", cut=cut_dd))
+                    jobs.append(job(ROOT, "HDecodeDecryptArbitrary", [s, role, 1, hm, n, 1], solver="z3-new", cut=cut_dd))
                 for n in range(0, 28 + 8 + 1):
-                    jobs.append(job(ROOT, "HDecodeDecryptArbitrary", [s, role, 1, hm, n, 0], solver="z3"))
+                    jobs.append(job(ROOT, "HDecodeDecryptArbitrary", [s, role, 1, hm, n, 0], solver="z3-new"))
     for hm in (0, 1):
         for n in range(0, 28 + 8 + 1):
             jobs.append(job(ROOT, "HDecodeDecryptArbitrary", [0, 0, 0, hm, n, 0], **A))
